@@ -144,6 +144,38 @@ pub fn child(op: &str, input: &[u8]) -> Option<String> {
             for bad in parts { let _ = d.decompress(Bytes::from(bad)); }
             match compressor(arg).compress(Bytes::from(payload)) { Err(_) => "err-compress".into(), Ok(z) => match decompressor(arg).decompress(z) { Ok(b) => format!("ok {}", hx(&b)), Err(_) => "err".into() } }
         }
+        "cmp" => {
+            // arg: <codec>/<algo>; input as for cseq: the items. encode each, batch, compress; decompress, unbatch, decode each
+            let (codec, algo) = arg.split_once('/').unwrap();
+            let mut items: Vec<Vec<u8>> = vec![];
+            let mut i = 4usize;
+            let n = u32::from_be_bytes([input[0], input[1], input[2], input[3]]) as usize;
+            for _ in 0..n { let l = u32::from_be_bytes([input[i], input[i + 1], input[i + 2], input[i + 3]]) as usize; items.push(input[i + 4..i + 4 + l].to_vec()); i += 4 + l; }
+            let mut enc: Vec<Bytes> = vec![];
+            for it in &items {
+                let e = match codec {
+                    "string" => match String::from_utf8(it.clone()) { Ok(sv) => StringCodec.encode(sv), Err(_) => return Some("bad-item".into()) },
+                    "bytes" => BytesCodec.encode(it.clone()),
+                    _ => BincodeCodec::<()>::default().encode(()),
+                };
+                match e { Ok(b) => enc.push(b), Err(_) => return Some("err-encode".into()) }
+            }
+            let wire = selium_protocol::utils::encode_message_batch(enc);
+            let wire = if algo == "-" { wire } else { match compressor(algo).compress(wire) { Ok(z) => z, Err(_) => return Some("err-compress".into()) } };
+            let plain = if algo == "-" { wire } else { match decompressor(algo).decompress(wire) { Ok(z) => z, Err(_) => return Some("err-decompress".into()) } };
+            let msgs = match selium_protocol::utils::decode_message_batch(plain) { Ok(m) => m, Err(_) => return Some("err-unbatch".into()) };
+            let mut got: Vec<String> = vec![];
+            for m in msgs {
+                let mut b = BytesMut::from(&m[..]);
+                let v: Option<Vec<u8>> = match codec {
+                    "string" => StringCodec.decode(&mut b).ok().map(|sv| sv.into_bytes()),
+                    "bytes" => BytesCodec.decode(&mut b).ok(),
+                    _ => BincodeCodec::<()>::default().decode(&mut b).ok().map(|_| vec![]),
+                };
+                match v { Some(v) => got.push(hx(&v)), None => return Some("err-decode".into()) }
+            }
+            format!("ok {}", got.join(","))
+        }
         _ => return None,
     })
 }
@@ -154,7 +186,7 @@ fn guarded_line(op: &str, input: &[u8]) -> (String, Result<(), String>) {
     if crate::childrun::hangs() >= crate::childrun::MAX_HANGS { return ("NOT-RUN-AFTER-HANGS".into(), Ok(())); }
     match guarded(op, input) {
         Outcome::Value(v) => {
-            let own = !(op.starts_with("dcp") || op.starts_with("crt") || op.starts_with("dcx") || op.starts_with("cseq"));
+            let own = !(op.starts_with("dcp") || op.starts_with("crt") || op.starts_with("dcx") || op.starts_with("cseq") || op.starts_with("cmp"));
             match crate::childrun::alloc_excess(op, input.len(), own) { Some(w) => (v, Err(w)), None => (v, Ok(())) }
         }
         Outcome::Panic(p) => ("PANIC".into(), Err(format!("{op} panicked: {p}"))),
@@ -378,6 +410,24 @@ pub fn run(cfg: &Cfg) {
             one(&mut out, &["cseq", a, &bads.join(","), &hx(&p)]);
         }
     }
+    // ---- the composition used on the wire: encode each, batch, compress / decompress, unbatch, decode each — for batches
+    // of every shape: no items, only empty items, empty items first / last / in between, one large item
+    for a in ["-", "gzip:bal", "zlib:1", "zstd:bal", "lz4:-", "brg:dflt"] {
+        for codec in ["string", "bytes", "unit"] {
+            let mut shapes: Vec<Vec<Vec<u8>>> = vec![vec![], vec![vec![]], vec![vec![]; 3], vec![vec![]; 17], vec![b"a".to_vec(), vec![], vec![], vec![]],
+                vec![vec![], vec![], b"zz".to_vec()], vec![vec![], b"q".to_vec(), vec![]]];
+            for _ in 0..cfg.n(6, 200) {
+                let n = r.below(12) as usize;
+                shapes.push((0..n).map(|_| match r.below(4) { 0 | 1 => vec![], 2 => { let k = 1 + r.below(3) as usize; r.bytes(k).iter().map(|b| b'a' + b % 26).collect() } _ => { let k = r.below(40) as usize; r.bytes(k).iter().map(|b| b' ' + b % 90).collect() } }).collect());
+            }
+            shapes.push(vec![vec![], (0..70_000).map(|i| b'a' + (i % 23) as u8).collect(), vec![]]);
+            for sh in shapes {
+                let sh: Vec<Vec<u8>> = if codec == "unit" { sh.iter().map(|_| vec![]).collect() } else { sh };
+                let items = if sh.is_empty() { "none".to_string() } else { sh.iter().map(|b| hx(b)).collect::<Vec<_>>().join(",") };
+                one(&mut out, &["cmp", codec, a, &items]);
+            }
+        }
+    }
     // ---- crafted frame headers: every descriptor byte, with size fields that declare far more than is present
     for a in ["gzip:-", "zlib:-", "zstd:-", "lz4:-", "brg:-"] {
         for z in crafted_headers(a, cfg.tier == Tier::Thorough) {
@@ -546,6 +596,16 @@ fn one(out: &mut Out, t: &[&str]) {
             let (imp, mut mon) = guarded_line(&format!("cseq:{}", t[1]), &input);
             if mon.is_ok() && imp != format!("ok {}", hx(&payload)) { mon = Err(format!("{}: after decoding {} damaged input(s) on the same thread, decompress(compress(x)) != x for a {}-byte payload ({})", t[1], bads.len(), payload.len(), &imp[..imp.len().min(40)])); }
             out.stat(&format!("cseq_{}", t[1].split(':').next().unwrap()));
+            out.case(&line, &imp, mon);
+        }
+        "cmp" => {
+            let items: Vec<Vec<u8>> = if t[3] == "none" { vec![] } else { t[3].split(',').map(unhx).collect() };
+            let mut input = (items.len() as u32).to_be_bytes().to_vec();
+            for b in &items { input.extend_from_slice(&(b.len() as u32).to_be_bytes()); input.extend_from_slice(b); }
+            let (imp, mut mon) = guarded_line(&format!("cmp:{}/{}", t[1], t[2]), &input);
+            let want = format!("ok {}", items.iter().map(|b| hx(b)).collect::<Vec<_>>().join(","));
+            if mon.is_ok() && imp != want { mon = Err(format!("C14/C03: the composition used on the wire ({} codec, {}): {} item(s) ({} empty) came back as `{}`", t[1], t[2], items.len(), items.iter().filter(|b| b.is_empty()).count(), &imp[..imp.len().min(60)])); }
+            out.stat(&format!("cmp_{}_{}", t[1], t[2].split(':').next().unwrap()));
             out.case(&line, &imp, mon);
         }
         _ => panic!("bad codec case {line}"),
